@@ -113,6 +113,10 @@ func runMember(c *core.Ctx, mb member, rules map[string]bool, budget int, check 
 			if fn == "" {
 				fn = "(emitted code)"
 			}
+			if !strings.HasPrefix(is.Rule, "A-CTX") {
+				// only context findings are tied to one template; the others are identified by function + construct
+				fn = strings.SplitN(fn, " :: ", 2)[0]
+			}
 			if c.IsKnown(is.Rule, fn, is.Construct) {
 				knownHere++
 			} else {
